@@ -80,6 +80,13 @@ def kind_terms():
         out.append((Cho((M('p', B), M('x', l))), 'K:cho'))
         out.append((Seq((M('pad', B),), ext=True, adds=(M('x', l), Grp((M('g', l), M('h', B, 'O'))))), 'K:add'))
         out.append((Cho((M('p', B),), ext=True, adds=(M('x', Of(Seq((M('e', l),)))),)), 'K:cho-add-of-seq'))
+    # nested components with the same name (distinct objects that compare equal by name)
+    for l in leaves[:7]:
+        out.append((Seq((M('x', Seq((M('x', l), M('y', B, 'O')))),)), 'K:same-name-seq'))
+        out.append((Cho((M('x', Cho((M('x', l), M('y', B)))), M('y', B))), 'K:same-name-cho'))
+        out.append((Seq((M('x', Of(Seq((M('x', l),)))),)), 'K:same-name-of'))
+        out.append((Seq((M('p', B),), ext=True, adds=(M('x', Cho((M('p', B),), ext=True, adds=(M('x', l),))),)),
+                    'K:same-name-add'))
     return out
 
 
